@@ -343,6 +343,22 @@ def r5(ctx, R):
         R.inst("%s reads %s.%s(node)" % (spec, graph, meth))
         if len(cs) != 1 or [norm(a) for a in cs[0].args] != ["node"]:
             R.bad(fi, fi.node, "%s does not list %s.%s of the element's node" % (spec, graph, meth), stmt=meth)
+    eg = ctx.func("BoundFunction._extract_globals")
+    R.inst("_extract_globals: names read in nested code objects (generators, lambdas, inner defs) at every depth")
+    okg = False
+    for lp_ in [x for x in walk_local(eg.node) if isinstance(x, ast.For)]:
+        if not norm(lp_.iter).endswith(".co_consts"):
+            continue
+        v_ = norm(lp_.target)
+        for c in [c for b in lp_.body for c in ast.walk(b) if isinstance(c, ast.Call) and call_name(c) == "_extract_globals"]:
+            g = q.guards_of(eg, c)
+            merged = any(isinstance(p_, ast.Call) and call_name(p_) in ("extend", "update") and c in p_.args for p_ in ast.walk(lp_)) or \
+                any(isinstance(p_, ast.AugAssign) and p_.value is c for p_ in ast.walk(lp_))
+            if [norm(a) for a in c.args] == [v_] and ("isinstance(%s, CodeType)" % v_, "T") in g and len(g) == 1 and merged:
+                okg = True
+    if not okg:
+        R.bad(eg, eg.node, "references read by name in code nested more than one level deep are missing from precedents(): "
+                           "the scan of nested code objects does not call itself", stmt="recursive scan of co_consts")
     pr = ctx.func("ItemFactoryImpl.predecessors")
     R.inst("predecessors: object nodes (len < 2) are wrapped as ObjectNode, others as ItemNode")
     lcs = [n for n in walk_local(pr.node) if isinstance(n, ast.ListComp)]
@@ -401,3 +417,24 @@ def r6(ctx, R):
                 R.bad(f, hit, "a held value is read by key outside the executor's hit path: the caller gets the value "
                               "without a dependency edge, so it is not invalidated when the value changes")
     R.need(n >= 2, "expected >=2 keyed reads of held values, found %d" % n)
+    # the same for ItemSpaces: an instance is handed out by key only through eval_node (`<space>.data[key]`)
+    m = 0
+    for f in ctx.repo.all_funcs(modules=["modelx.core.space"]):
+        for x in walk_local(f.node):
+            hit = None
+            if isinstance(x, ast.Subscript) and isinstance(x.ctx, ast.Load) and not isinstance(x.slice, ast.Slice):
+                base = q.origin(f, x.value)
+                if isinstance(base, ast.Attribute) and base.attr == "param_spaces":
+                    hit = x
+            elif isinstance(x, ast.Call) and isinstance(x.func, ast.Attribute) and x.func.attr in ("get", "pop", "setdefault"):
+                base = q.origin(f, x.func.value)
+                if isinstance(base, ast.Attribute) and base.attr == "param_spaces":
+                    hit = x
+            if hit is None:
+                continue
+            m += 1
+            R.inst("keyed read of an ItemSpace in %s" % f.short)
+            if f.short != "ItemSpaceParent._del_itemspace":
+                R.bad(f, hit, "an existing ItemSpace is handed out by key outside the executor: the formula that obtained it "
+                              "gets no dependency edge from the space element, and is not cleared when the ItemSpace is deleted")
+    R.need(m >= 1, "expected >=1 keyed read of param_spaces, found %d" % m)
